@@ -168,6 +168,17 @@ Definition preprocess (ix : list nat) (vals vars : list (list Q)) (fails : list 
       end
   end.
 
+(* ------------------------------------------------------------------------------------------ what a failed row stores *)
+(* the history in which the entry STORED with every failed observation (a value, or a whole row of values) is replaced by the
+   corresponding entry of `junk` - an observation reported as failed still carries some number: a placeholder, a sentinel such as
+   1e30, whatever the client sent; non-failed entries are kept; where `junk` runs out the stored entry stays.  Used to state that
+   the normalisation never reads those numbers. *)
+Fixpoint overwrite_failed {A} (fails : list bool) (vals junk : list A) : list A :=
+  match fails, vals with
+  | f :: fs, v :: vs => (if f then hd v junk else v) :: overwrite_failed fs vs (tl junk)
+  | _, _ => vals
+  end.
+
 (* ------------------------------------------------------------------------------------------ decidable specifications,
    evaluated on the implementation's own outputs *)
 Definition better_b (o : objective) (a b : Q) : bool := match o with Minimize => Qltb a b | _ => Qltb b a end.
